@@ -232,6 +232,25 @@ func (ex *Exec) execReturn(s *ast.ReturnStmt, st *State) *Flow {
 	}
 	// witnesses of the contract under verification take their value here
 	if ex.recursing != nil && ex.recursing.fi == f.fi && f.lit == nil && len(ex.frames) == 2 {
+		for _, c := range ex.recursing.blk.Clauses {
+			if c.Kind != "use" || c.Loop != -2 {
+				continue
+			}
+			// lemma instance over the locals at this return
+			e, err := ex.prog.CheckExprAt(f.fi.Pkg, s.Pos(), c.Go)
+			if err != nil {
+				unsupported("return use %s does not type-check at %s: %v", c.Text, ex.pos(s.Pos()), err)
+			}
+			ex.suppress++
+			g := ex.evalBool(e, st.fork(st.pc))
+			ex.suppress--
+			ex.facts = append(ex.facts, g)
+			if ex.prog.Axioms[f.fi.Pkg.Name+"."+c.ID] {
+				ex.assumptions["AXIOM "+f.fi.Pkg.Name+"."+c.ID+" (assumed, see the contract file)"] = true
+			} else {
+				ex.usedContracts["lemma "+f.fi.Pkg.Name+"."+c.ID] = true
+			}
+		}
 		for _, w := range ex.recursing.blk.Witnesses {
 			gl := ex.ghostLoc(ex.recursing.blk.Pkg, w[0])
 			e, err := ex.prog.CheckExprAt(f.fi.Pkg, s.Pos(), w[2])
@@ -359,6 +378,11 @@ func (ex *Exec) evalMulti(e ast.Expr, st *State, n int) *TupleV {
 }
 
 func (ex *Exec) loopClauses(s ast.Stmt) (unroll int, invs []*Clause, havoc []string, blk *Block) {
+	unroll, invs, havoc, blk, _ = ex.loopClauses2(s)
+	return
+}
+
+func (ex *Exec) loopClauses2(s ast.Stmt) (unroll int, invs []*Clause, havoc []string, blk *Block, rangevar string) {
 	unroll = -1
 	fi := ex.prog.LoopFunc[s]
 	if fi == nil {
@@ -383,10 +407,12 @@ func (ex *Exec) loopClauses(s ast.Stmt) (unroll int, invs []*Clause, havoc []str
 		return
 	}
 	for _, c := range blk.Clauses {
-		if c.Loop != ord {
+		if c.Loop != ord || !c.IsLoop {
 			continue
 		}
 		switch c.Kind {
+		case "rangevar":
+			rangevar = strings.TrimSpace(c.Text)
 		case "unroll":
 			unroll = atoi(c.Text)
 		case "invariant", "use":
@@ -481,6 +507,7 @@ func (ex *Exec) execRange(s *ast.RangeStmt, st *State, label string) *Flow {
 	ex.pushScope()
 	out := &Flow{}
 	xt := ex.typeOf(s.X).Underlying()
+	var symRange *SymSliceV
 	var elems []Value
 	intRange := false
 	var n int
@@ -503,6 +530,14 @@ func (ex *Exec) execRange(s *ast.RangeStmt, st *State, label string) *Flow {
 				elems = back.Elems[sv.Off : sv.Off+sv.Len]
 			}
 		case *SymSliceV:
+			_, invs, _, _ := ex.loopClauses(s)
+			if mx, ok := constLeavesMax(sv.Len); ok && mx <= 64 && len(invs) == 0 {
+				// the length is one of a few constants (slices of different length joined at a
+				// merge): unroll to the largest, each iteration guarded by i < len
+				n = mx
+				symRange = sv
+				break
+			}
 			r := ex.execRangeSym(s, st, label, sv)
 			ex.popScope(ex.flowStates(r)...)
 			return r
@@ -545,6 +580,17 @@ func (ex *Exec) execRange(s *ast.RangeStmt, st *State, label string) *Flow {
 	var exit *State
 	cur := st
 	for i := 0; i < n && cur != nil; i++ {
+		if symRange != nil {
+			g := ex.ts.BVCmp(OpBVSlt, ex.ts.BV(uint64(i), 64), symRange.Len)
+			if done := cur.fork(ex.ts.And(cur.pc, ex.ts.Not(g))); !done.pc.IsFalse() {
+				exit = ex.mergeStates(exit, done)
+			}
+			cur.pc = ex.ts.And(cur.pc, g)
+			if cur.pc.IsFalse() {
+				cur = nil
+				break
+			}
+		}
 		ex.pushScope()
 		bind := func(e ast.Expr, v Value) {
 			if e == nil {
@@ -572,7 +618,9 @@ func (ex *Exec) execRange(s *ast.RangeStmt, st *State, label string) *Flow {
 		}
 		kw, _, _ := intInfo(kt)
 		bind(s.Key, ex.ts.BV(uint64(i), kw))
-		if !intRange && s.Value != nil {
+		if symRange != nil && s.Value != nil {
+			bind(s.Value, ex.symSliceElem(cur, symRange, ex.ts.BV(uint64(i), 64)))
+		} else if !intRange && s.Value != nil {
 			bind(s.Value, elems[i])
 		}
 		r := ex.execBlock(s.Body.List, cur)
@@ -703,4 +751,22 @@ func (ex *Exec) execSwitch(s *ast.SwitchStmt, st *State, label string) *Flow {
 
 func itoa(i int) string {
 	return strings.TrimSpace(strings.Replace(strings.Replace(fmtInt(i), "\n", "", -1), " ", "", -1))
+}
+
+// constLeavesMax: t is an if-then-else tree over constants; returns the largest leaf.
+func constLeavesMax(t *Term) (int, bool) {
+	switch t.Op {
+	case OpConst:
+		if t.BV > 1<<20 {
+			return 0, false
+		}
+		return int(t.BV), true
+	case OpIte:
+		a, ok1 := constLeavesMax(t.Args[1])
+		b, ok2 := constLeavesMax(t.Args[2])
+		if ok1 && ok2 {
+			return max(a, b), true
+		}
+	}
+	return 0, false
 }
